@@ -172,6 +172,18 @@ class CallMixin:
             return self._q("exists", i, body)
         if isinstance(cls, SV) and cls.ty.kind in ("list", "tuple"):
             raise Unsupported("isinstance with a symbolic class tuple")
+        if isinstance(cls, FuncRef) and cls.fq == "builtin.type":
+            # isinstance(v, type): is the value a class?  decided by the static type, an uninterpreted predicate on
+            # dynamically typed (Any) values
+            if not isinstance(v, SV):
+                raise Unsupported("isinstance of non-value")
+            if v.ty == T.TYPE:
+                return z3.BoolVal(True)
+            if v.ty == T.ANY:
+                return self.w.func("any_is_class", self.w.sort(T.ANY), z3.BoolSort())(v.term)
+            if v.ty.kind in ("int", "bool", "real", "str", "list", "dict", "set", "none", "obj", "enum", "tuple"):
+                return z3.BoolVal(False)
+            raise Unsupported(f"isinstance({v.ty}, type) (line {line})")
         if isinstance(cls, FuncRef) and cls.fq in ("builtin.int", "builtin.float", "builtin.str", "builtin.bool",
                                                    "builtin.list", "builtin.dict", "builtin.set"):
             # builtin classes: decided by the static type the value has in the encoding (bool is an int in python)
@@ -419,10 +431,12 @@ class CallMixin:
         self.side_fact(z3.ForAll([i], z3.Implies(z3.And(0 <= i, i < n),
                                                  z3.And(0 <= perm(i), perm(i) < n, pinv(perm(i)) == i,
                                                         self.list_get(osv, i) == self.list_get(v, perm(i)))),
-                                 patterns=[perm(i)]))
+                                 patterns=[perm(i), self.list_get(osv, i)]))
+        # (a mention of an element of the sorted list / of the input triggers the permutation facts)
+        src_pat = [self.list_get(v, i)] if self._pattern_safe(self.list_get(v, i)) else []
         self.side_fact(z3.ForAll([i], z3.Implies(z3.And(0 <= i, i < n),
                                                  z3.And(0 <= pinv(i), pinv(i) < n, perm(pinv(i)) == i)),
-                                 patterns=[pinv(i)]))
+                                 patterns=[pinv(i)] + src_pat))
         return osv
 
     def bi_reversed(self, node):
@@ -1344,6 +1358,23 @@ class CallMixin:
                 raise Unsupported("add on untyped empty set")
             x = self.coerce(x, recv.ty.args[0], line)
             self.mutate(recv, SV(z3.Store(recv.term, x.term, True), recv.ty), line)
+            return SV(None, T.NONE)
+        if name == "update":
+            o = args[0]
+            if isinstance(o, LazySeq):
+                o = self.materialize(LazySeq(o.source, o.target, o.conds, o.elt, o.env, "set", o.module))
+            if not (isinstance(o, SV) and o.ty.kind == "set"):
+                raise Unsupported(f"set.update with {type(o).__name__} (line {line})")
+            if o.term is None:
+                return SV(None, T.NONE)
+            if recv.term is None:
+                if recv.ref is not None and not recv.ref.path:
+                    self.st.cells[recv.ref.cell] = SV(o.term, o.ty)
+                    return SV(None, T.NONE)
+                raise Unsupported("update on untyped empty set")
+            o = self.coerce(o, recv.ty, line)
+            x = z3.Const(f"su{next(_cc)}", self.w.sort(recv.ty.args[0]))
+            self.mutate(recv, SV(z3.Lambda([x], z3.Or(z3.Select(recv.term, x), z3.Select(o.term, x))), recv.ty), line)
             return SV(None, T.NONE)
         if name in ("discard", "remove"):
             if recv.term is None:
